@@ -6,6 +6,7 @@ import (
 	"context"
 	"fmt"
 	"math"
+	"os"
 	"sort"
 	"strings"
 	"sync"
@@ -97,7 +98,11 @@ func c21Spawn(n int, opts ...RouterOption) *c21Router {
 	for i := 0; i < n; i++ {
 		p, ok := sys.findRoutee(routeeName(i, "rt"))
 		if !ok || !p.IsRunning() {
-			panic(fmt.Sprintf("c21: routee %d not running", i))
+			st := "not found"
+			if ok {
+				st = fmt.Sprintf("state=%b", p.state.Load())
+			}
+			panic(fmt.Sprintf("c21: routee %d not running (%s); router running=%v routeesMap=%d children=%d", i, st, pid.IsRunning(), len(rt.impl.routeesMap), len(pid.Children())))
 		}
 		rt.routees = append(rt.routees, p)
 	}
@@ -389,10 +394,21 @@ func c21LiveRoutees(rt *c21Router) []string {
 
 func c21RunFanOut(t *testing.T, e *vsched.Enum, n int, prog string) {
 	input := fmt.Sprintf("routees=%d program=%s", n, prog)
+	if os.Getenv("VERIF_C21_TRACE") != "" {
+		fmt.Fprintln(os.Stderr, "c21 fanout:", input)
+	}
 	var obs strings.Builder
 	broadcasts := 0
 	resized := false
 	p := vfBubble(t, func() {
+		if os.Getenv("VERIF_C21_TRACE") != "" {
+			defer func() {
+				if pv := recover(); pv != nil {
+					fmt.Fprintln(os.Stderr, "c21 fanout closure panic:", pv)
+					panic(pv)
+				}
+			}()
+		}
 		rt := c21Spawn(n) // default strategy = FanOutRouting
 		defer rt.stop()
 		expect := map[int][]string{} // message id -> live routees at send time
